@@ -110,8 +110,13 @@ where
         let fields = out_fields(&o);
         match o.out {
             Outcome::Ok(Some(tree)) => {
-                let _ = write!(extra, ",\"built\":1,\"count\":{}", tree.verif_chunks().len());
-                t = Some(tree);
+                let count = tree.verif_chunks().len();
+                let _ = write!(extra, ",\"built\":1,\"count\":{}", count);
+                // resource cut-off, not a verdict: a tree that reports an absurd amount of storage is
+                // logged (TLC judges the count) and then left alone - every snapshot would copy it all
+                if count <= 4096 {
+                    t = Some(tree);
+                }
             }
             Outcome::Ok(None) => extra.push_str(",\"built\":0,\"count\":0"),
             _ => {}
